@@ -275,8 +275,15 @@ func IsEntityEqual(prevJson []byte, thisJson []byte, prevEntity *Entity, thisEnt
 		return false
 	}
 
-	// assuming that the length check is enough to determine that refs and props have the same keys
-	// it is theoretically possible to have the same json length with different keys ... consider matching keys in both objects as well.
+	// the length check is not enough: the deleted flag or a key that only the new version has
+	// can compensate for a removed key of the same serialized length.
+	if prevEntity.IsDeleted != thisEntity.IsDeleted {
+		return false
+	}
+	if len(prevEntity.References) != len(thisEntity.References) || len(prevEntity.Properties) != len(thisEntity.Properties) {
+		return false
+	}
+
 	for i, v := range prevEntity.References {
 		thisVal, ok := thisEntity.References[i]
 		if !ok {
